@@ -108,7 +108,57 @@ pub fn parse(argv: Vec<String>) -> String {
     }
 }
 
+fn arg_table(cmd: &Command) -> serde_json::Value {
+    let mut v = vec![];
+    for a in cmd.get_arguments() {
+        let id = a.get_id().as_str();
+        if id == "help" || id == "version" {
+            continue;
+        }
+        let action = match a.get_action() {
+            ArgAction::SetTrue => "setTrue",
+            ArgAction::SetFalse => "setFalse",
+            ArgAction::Count => "count",
+            ArgAction::Set => "set",
+            ArgAction::Append => "append",
+            _ => "other",
+        };
+        let mut longs: Vec<String> = a.get_long().map(|l| vec![l.to_string()]).unwrap_or_default();
+        if let Some(al) = a.get_all_aliases() {
+            longs.extend(al.iter().map(|x| x.to_string()));
+        }
+        let mut shorts: Vec<String> = a.get_short().map(|c| vec![c.to_string()]).unwrap_or_default();
+        if let Some(al) = a.get_all_short_aliases() {
+            shorts.extend(al.iter().map(|x| x.to_string()));
+        }
+        let defaults: Vec<String> =
+            a.get_default_values().iter().map(|d| d.to_string_lossy().into_owned()).collect();
+        v.push(serde_json::json!({
+            "id": id, "longs": longs, "shorts": shorts, "positional": a.is_positional(),
+            "index": a.get_index(), "action": action, "global": a.is_global_set(),
+            "defaults": defaults, "delimiter": a.get_value_delimiter().map(|c| c.to_string()),
+        }));
+    }
+    serde_json::Value::Array(v)
+}
+
+/// `clapargs`: the argument table of the REAL `Command` (after `build()`, so every subcommand also lists the
+/// propagated globals) as one JSON line: what the intended-meaning oracle reads summaries with, independent of
+/// translate/cli_grammar.py
+pub fn clapargs() -> String {
+    let mut cmd = cli::Cli::command();
+    cmd.build();
+    let mut subs = serde_json::Map::new();
+    for sc in cmd.get_subcommands() {
+        subs.insert(sc.get_name().to_string(), arg_table(sc));
+    }
+    serde_json::json!({ "top": arg_table(&cmd), "subs": subs }).to_string().replace(' ', "\\u0020")
+}
+
 pub fn dispatch(fields: &[&str]) -> Option<String> {
+    if fields.first().copied() == Some("clapargs") {
+        return Some(clapargs());
+    }
     if fields.first().copied() != Some("clap") {
         return None;
     }
